@@ -532,3 +532,96 @@ def analyse(case, log):
           out.append(('producer_keeps_pulling_after_failure',
                       {'producer': p, 'pulled_after_failure': late}))
   return out
+
+
+# ---------------------------------------------------------------------------
+# 'tightpool' scenario (fourth seed round, C05d)
+# ---------------------------------------------------------------------------
+MECH_TIGHT_POOL = 'tightpool:stop-request-does-not-release-enqueuers-holding-every-pool-thread'
+
+
+def run_tight_pool_case(case, watchdog_s):
+  """A stop request while every thread of the queue's own executor is blocked in put().
+
+  The executor given to the AsyncIteratorQueue has exactly P threads for P >= 2 async
+  enqueuers with endless sources. One async consumer (num_steps = 1) asks FIRST - its get
+  holds one thread until the first element arrives, so the run never depends on a get
+  queued behind blocked puts - then pauses until the buffer is full and all P enqueuers
+  sit in put(), and asks again: this step is behind num_steps, i.e. the stop request.
+
+  Returns (status, record): status 'ok' | 'setup' (the all-blocked state was not reached:
+  inconclusive) | 'hang' (the stop did not return / enqueuers still blocked after the
+  watchdog).
+  """
+  from ml_metrics._src.utils import iter_utils
+  P, cap = case['P'], case['cap']
+  rng = random.Random(case.get('delay_seed', 0))
+  naps = [rng.choice([0, 0.0005, 0.002]) for _ in range(16)]
+  pool = cf.ThreadPoolExecutor(max_workers=P, thread_name_prefix='aqt')
+  q = iter_utils.AsyncIteratorQueue(cap, name='aqt', thread_pool=pool)
+  rec = {'P': P, 'cap': cap}
+
+  async def source(p):
+    i = 0
+    while True:
+      await asyncio.sleep(naps[(p * 5 + i) % len(naps)])
+      yield (p, i)
+      i += 1
+
+  async def main():
+    consumer = q.async_dequeue_as_iterator(num_steps=1)
+    first_task = asyncio.ensure_future(consumer.__anext__())
+    await asyncio.sleep(0.05)
+    enq = [asyncio.ensure_future(q.async_enqueue_from_iterator(source(p))) for p in range(P)]
+    try:
+      rec['first'] = await asyncio.wait_for(first_task, watchdog_s)
+    except Exception as e:  # pylint: disable=broad-exception-caught
+      rec['first_error'] = repr(e)
+      return 'setup', enq
+    # all P enqueuers in put(): the buffer is full and P more elements are in hand
+    deadline = time.monotonic() + watchdog_s
+    def blocked():
+      return q._queue.full() and getattr(pool, '_work_queue').qsize() == 0 and len(  # pylint: disable=protected-access
+          [t for t in getattr(pool, '_threads') if t.is_alive()]) == P
+    while time.monotonic() < deadline and not blocked():
+      await asyncio.sleep(0.01)
+    await asyncio.sleep(0.3)
+    rec['buffer_full'] = bool(q._queue.full())  # pylint: disable=protected-access
+    rec['enqueuers_done_before_stop'] = [t.done() for t in enq]
+    if not rec['buffer_full'] or any(t.done() for t in enq):
+      return 'setup', enq
+    t0 = time.monotonic()
+    try:
+      await asyncio.wait_for(consumer.__anext__(), watchdog_s)
+      rec['second_step'] = 'yielded'
+    except StopAsyncIteration:
+      rec['second_step'] = 'stopped'
+    except asyncio.TimeoutError:
+      rec['second_step'] = 'no-return'
+    except Exception as e:  # pylint: disable=broad-exception-caught
+      rec['second_step'] = 'raised ' + repr(e)
+    rec['stop_took_s'] = round(time.monotonic() - t0, 3)
+    _, pending = await asyncio.wait(enq, timeout=max(1.0, watchdog_s / 2))
+    rec['enqueuers_still_blocked'] = len(pending)
+    rec['enqueue_done'] = bool(q.enqueue_done)
+    return ('ok' if rec['second_step'] == 'stopped' and not pending else 'hang'), enq
+
+  loop = asyncio.new_event_loop()
+  status = 'setup'
+  try:
+    status, enq = loop.run_until_complete(main())
+  finally:
+    try:
+      q.maybe_stop()          # the verdict is taken: release whatever is still parked
+    except Exception:  # pylint: disable=broad-exception-caught
+      pass
+    try:
+      loop.run_until_complete(asyncio.sleep(0.05))
+      for t in asyncio.all_tasks(loop):
+        t.cancel()
+      loop.run_until_complete(asyncio.sleep(0))
+    except Exception:  # pylint: disable=broad-exception-caught
+      pass
+    pool.shutdown(wait=False, cancel_futures=True)
+    loop.close()
+  return status, rec
